@@ -47,3 +47,24 @@ theorem forM_eq_ok {α} (l : List α) (f : α → Except Err Unit) (u : Unit) :
     | ok v => simp [bind, Except.bind]; exact ih
 
 end Jose
+
+namespace Jose
+
+theorem bind_eq_error {α β} (x : Except Err α) (f : α → Except Err β) (e : Err) :
+    (x >>= f) = .error e ↔ x = .error e ∨ ∃ a, x = .ok a ∧ f a = .error e := by
+  cases x <;> simp [bind, Except.bind]
+
+theorem ensure_eq_error (c : Bool) (e e' : Err) : ensure c e = .error e' ↔ c = false ∧ e' = e := by
+  unfold ensure; cases c <;> simp [eq_comm]
+
+theorem forM_eq_error {α} (l : List α) (f : α → Except Err Unit) (e : Err) (h : l.forM f = .error e) :
+    ∃ x ∈ l, f x = .error e := by
+  induction l with
+  | nil => simp [List.forM, pure, Except.pure] at h
+  | cons a as ih =>
+    simp only [List.forM, bind_eq_error] at h
+    rcases h with h | ⟨_, _, h⟩
+    · exact ⟨a, by simp, h⟩
+    · obtain ⟨x, hx, hfx⟩ := ih h; exact ⟨x, by simp [hx], hfx⟩
+
+end Jose
